@@ -193,23 +193,21 @@ Section Model.
               match (match v with VEarlyLate => Some (b, m) | _ => stat f2 p end) with
               | None => (cset kn None c, f2, IErr)       (* nothing left to hash *)
               | Some (b2, _) =>
-                  match detect b2 with
-                  | None => (cset kn None c, f2, IErr)   (* (approximation: the real code would
-                                                            memoise the digest of a non-compiler) *)
-                  | Some id =>
-                      let m2 := match stat f2 p with Some (_, x) => Some x | None => None end in
-                      let ent x := Some {| ce_exe := p; ce_id := id; ce_mtime := x |} in
-                      let c' :=
-                        match v with
-                        | VFixed => match m2 with
-                                    | Some x => if x =? m then cset k (ent m) c else cset k None c
-                                    | None => cset k None c
-                                    end
-                        | VEarlyLate => cset k (ent (match m2 with Some x => x | None => m end)) c
-                        | _ => cset k (ent m) c
-                        end in
-                      (c', f2, IOk p id true)
-                  end
+                  (* whatever is at the path now is hashed; if it is no compiler its digest (0 here)
+                     never reaches a key: the request's preprocessor run fails first *)
+                  let id := match detect b2 with Some i => i | None => 0 end in
+                  let m2 := match stat f2 p with Some (_, x) => Some x | None => None end in
+                  let ent x := Some {| ce_exe := p; ce_id := id; ce_mtime := x |} in
+                  let c' :=
+                    match v with
+                    | VFixed => match m2 with
+                                | Some x => if x =? m then cset k (ent m) c else cset k None c
+                                | None => cset k None c
+                                end
+                    | VEarlyLate => cset k (ent (match m2 with Some x => x | None => m end)) c
+                    | _ => cset k (ent m) c
+                    end in
+                  (c', f2, IOk p id true)
               end
           end in
         match clookup k c with
@@ -405,10 +403,11 @@ Section Model.
   Definition served (e : event) : option N :=
     match e_out e with OHit p => Some p | OMiss p => Some p | _ => None end.
 
-  (* the identity in the key is the identity of the bytes now at the path *)
+  (* the identity in the key is the identity of the bytes now at the path (a file that is no
+     compiler has none: such a request fails, see `good` / C12_identity_is_current) *)
   Definition identity_current (e : event) : bool :=
     match e_id e, e_cur e with
-    | Some id, Some (b, _) => match detect b with Some id' => id =? id' | None => false end
+    | Some id, Some (b, _) => match detect b with Some id' => id =? id' | None => true end
     | Some _, None => false
     | None, _ => true
     end.
